@@ -181,6 +181,10 @@ class DatasetSpec(object):
             elif self.notes.get('fortran') and getattr(arr, 'ndim', 1) == 2 and not name.startswith('pc_') and 'feature' not in name:
                 arr = np.asfortranarray(arr)        # column-major .npy files, as MATLAB exporters write them
             np.save(d / name, arr)
+            if self.notes.get('npy_version') and (name.startswith('spike_') or name in ('amplitudes.npy', 'channel_positions.npy')):
+                # .npy format 2.0 / 3.0 (what np.save itself picks for long headers): as good as 1.0
+                with open(d / name, 'wb') as f_:
+                    np.lib.format.write_array(f_, np.asanyarray(arr), version=tuple(self.notes['npy_version']))
             if self.notes.get('npy_symlink') and name in ('spike_templates.npy', 'spike_times.npy', 'templates.npy', 'amplitudes.npy'):
                 # the array lives in another folder; the dataset folder only links to it
                 import os
@@ -205,7 +209,7 @@ class DatasetSpec(object):
                         f.write(b'\x5a' * self.raw_offset)
                         f.write(np.ascontiguousarray(self.raw[i:i + p]).tobytes())
                         if self.notes.get('raw_stray_byte') and k == len(parts) - 1 and self.raw.dtype.itemsize > 1:
-                            f.write(b'\x7f')            # the file was cut in the middle of a sample
+                            f.write(b'\x7f' * int(self.notes['raw_stray_byte']))            # the file was cut in the middle of a sample / of a row
                     if self.notes.get('raw_symlink'):
                         # the raw data lives elsewhere; the dataset folder only links to it
                         import os
